@@ -125,7 +125,9 @@ func c05a(c *Ctx) {
 				ret := r.X.(*ast.ReturnStmt)
 				if e := x.errResultExpr(ret); e != nil {
 					if isPkgVar(x.Info(), e, pkgCtlog, "ErrLogNotFound") || x.wrapsVar(e, pkgCtlog, "ErrLogNotFound") {
-						found = r.Pos()
+						if pt, _ := x.Graph().ReachableFromEntry(Cut{}, atSite(r)); pt != nil {
+							found = r.Pos()
+						}
 					}
 				}
 				if len(ret.Results) == 1 && depth < 2 {
@@ -142,7 +144,7 @@ func c05a(c *Ctx) {
 		}
 		scan(f, 0)
 		if found != "" {
-			c.OK(inst, "has a return of ErrLogNotFound", []string{found})
+			c.OK(inst, "has a reachable return of ErrLogNotFound", []string{found})
 		} else {
 			c.Bad(inst, f.Pos(f.Decl), "Fetch never returns ctlog.ErrLogNotFound: a missing log is reported with some other error, so callers testing errors.Is(err, ErrLogNotFound) (cmd/sunlight, witness.NewWitness) cannot recognise it")
 		}
